@@ -13,24 +13,37 @@ from vf import attach, core, gen, tol
 from vf.oracles import surface as O
 
 PROP_ID = 'C19'
-TECHNIQUE = ('runtime post-condition monitors with a scalar shifted-wave reference (two-sided on inexact knife edges); '
-             'offline relations between monitored executions; random + exhaustive small shift-vector workload')
-RULE = ('surface cases = (record of 1..400 samples from the shared record classes, dt nice/reciprocal/log-uniform/dyadic, '
-        '1-4 travel times mixing 0, multiples of dt/2 (incl. those whose 2*tau/dt evaluates a few ulps above/below an '
-        'integer), fractional short and long (up to 1.5x the record duration) and repeated values, scalar or array '
-        'reductions in (0,1], nodal x trim x start, stt in {0, U(0,6dt), U(0,1.5 duration), multiples of dt}); every '
-        'case calls calc_cum_abs_surface_energy (hence calc_surface_energy and trim_to_length), get_time_shift_motions, '
-        'a direct trim_to_length, the single-travel-time calls of the batch relation, an alpha-scaled copy and a sequence '
-        '(nodal energy, anti-nodal energy, cumulative x2, motions) that shares ONE reduction ndarray as up_red and down_red. '
-        'Value containers of the shift cases: float64, int64, list, uint8, uint16, int8, int16, int32, float32 with '
-        'magnitudes in the upper half of the dtype range (sums exceed it, differences go negative). shift '
-        'cases = put_array_in_2d_array for every shift vector over {-3..3} of length 1..3 (quick) / 1..4 (thorough) x n '
-        'in {1,2,4} x 4 clip modes (distinct by construction) plus random vectors (all-zero / all-negative / '
-        'all-positive / mixed, |shift| up to 2n) and joins with non-negative shifts. distinct = digest of all inputs; '
-        'non-trivial = record with a non-zero sample and at least 2 samples (surface) / any non-zero value (shift).')
+TECHNIQUE = ('runtime post-condition monitors with a scalar shifted-wave reference (two-sided on inexact knife edges) judged on '
+             'call-entry snapshots, argument-purity monitors; offline relations between monitored executions (batch, scaling, '
+             'shared objects, histories, back-to-back results); random + exhaustive small shift-vector workload')
+RULE = ('surface cases = (record of 1..400 samples (lengths 1,2,3 and around every power of two up to 257; shared record '
+        'classes, amplitudes 1e-12..1e12, large offsets, extreme at the first/last sample, plateaus at both ends, ending after '
+        'a sign change; containers float64/float32/int64..int8/uint8/uint16 (most of the dtype range)/list/tuple/list of '
+        'ints/non-contiguous and reversed views/read-only), dt nice/reciprocal/dyadic (2**-30..1024)/log-uniform 1e-9..1e3/'
+        'exact decades, 1-4 travel times mixing 0, multiples of dt/2 (incl. those whose 2*tau/dt evaluates a few ulps '
+        'above/below an integer), fractional short and long (up to 1.5x the record duration), repeated values, exact ties '
+        '(delay = record length -2..+1, start move = record length -1..+1) and integral values; travel-time containers python '
+        'float/int, np.float64, list, tuple, list of ints, mixed list, ndarray float64/float32 (exact quotients only)/every '
+        'integer width incl. values whose doubling leaves the dtype, views, read-only; reductions default/python float/int 1/'
+        'np.float32/np.float64/ndarray float64, float32, integer ones, views, read-only, one object for both; nodal x trim x '
+        'start as bool/int/np.bool_, stt in {0 (also int 0), U(0,6dt), U(0,1.5 duration), multiples of dt}; call styles '
+        'keyword / positional / mixed / defaults omitted / all-keyword). Every case calls calc_cum_abs_surface_energy (hence '
+        'calc_surface_energy and trim_to_length), get_time_shift_motions, a direct trim_to_length (float/int/Fortran/column '
+        'view/read-only array), the single-travel-time calls of the batch relation, an alpha-scaled copy and a 5-call sequence '
+        'on ONE AccSignal sharing ONE reduction ndarray (up_red and down_red) and ONE travel-time object. Further blocks: '
+        'same-object histories (10 random steps: calls, repeats, twins, reads of velocity/displacement/fa_spectrum/pga, '
+        'reset_values same/shorter/longer, add_constant, remove_average, add_series, regeneration), back-to-back pairs (first '
+        'result re-checked after a second call on another input of the same shape), a few records longer than 2**16. shift '
+        'cases = put_array_in_2d_array for every shift vector over {-3..3} of length 1..3 (quick) / 1..4 (thorough) x n in '
+        '{1,2,4} x clip in {none (also omitted and None), start, end, both} (distinct by construction) plus random vectors '
+        '(all-zero / all-negative / all-positive / mixed, |shift| up to 2n, 120, 250; containers int64..int8/uint8/uint16/'
+        'list/tuple/views/read-only) on values float64 (also 1e-12, 1e12)/int64/uint8/uint16/int8/int16/int32/float32 using '
+        'the dtype range, as ndarray/list/tuple/mixed list/views/read-only, positional and keyword; joins with non-negative '
+        'shifts. distinct = digest of all inputs and forms; non-trivial = record with a non-zero sample and at least 2 '
+        'samples (surface) / any non-zero value (shift).')
 ASSUMPTIONS = ['finite real records, dt > 0, travel times >= 0, stt >= 0',
-               'reductions are both scalars or both ndarrays with one entry per travel time (list-typed or mixed '
-               'reductions are outside the statement)',
+               'reductions are both scalars or both ndarrays with one entry per travel time (list-typed, 0-d and mixed '
+               'reductions and 0-d travel times are rejected by the library: outside the statement)',
                'placement rule for trim/start as read in DESIGN.md C19 (b): moves by floor(stt/dt) - floor(tau/dt) samples',
                'on an INEXACT knife edge (2*tau/dt, tau/dt or stt/dt within 16 ulps of an integer without being one in '
                'exact arithmetic on the given floats) either resolution of the first/last record sample and of the '
@@ -40,27 +53,39 @@ ASSUMPTIONS = ['finite real records, dt > 0, travel times >= 0, stt >= 0',
                'tolerances: energy 1e-9*max|E| + 1e-11*V^2, cumulative 1e-9*(max + V^2), motions 1e-9*(|up|+|down|)*max|x| '
                'with V = dt*(|up|+|down|)*sum|x|; shifted arrays exact',
                'values of shifted/joined arrays are judged numerically in exact float64 arithmetic on the input values; '
-               'the dtype of the result is not part of the statement',
-               'purity: ndarray reductions handed to the surface functions must be bit-for-bit unchanged after the call',
+               'the dtype of the result is not part of the statement; integer inputs of any width are in domain',
+               'float32 inputs are judged at float64 accuracy on their exact values; float32 records are driven only with '
+               'reductions whose product is not evaluated in float32 (power-of-two python floats, np.float64, float64 arrays) '
+               'and float32 travel times only with exact quotients (numpy evaluates the other combinations in float32)',
+               'purity: every array argument (record of the signal, travel times, reductions, values, shifts, 2-d array) must be '
+               'bit-for-bit unchanged after each call; references are computed from snapshots taken at call entry',
+               'clip=None is read as no clipping (docstring: "str or none")',
                'oracle vf/oracles/surface.py is correct']
 EXHAUSTIVE = {'quick': 'put_array_in_2d_array: all shift vectors over {-3..3} of length 1..3 x n in {1,2,4} x clip in '
                        '{none,start,end,both}; join_values_w_shifts: all vectors over {0..3} of length 1..3 x n x {add,sub}',
               'thorough': 'put_array_in_2d_array: all shift vectors over {-3..3} of length 1..4 x n in {1,2,4} x clip in '
                           '{none,start,end,both}; join_values_w_shifts: all vectors over {0..3} of length 1..4 x n x {add,sub}'}
-MIN_EVALS = {'quick': {'energy==oracle': 5500, 'cum==oracle': 3500, 'cum==cumsum|d(observed energy)|': 3500,
-                       'cum.non-decreasing': 3500, 'cum.zero@tau0-nodal': 600, 'cum.scales-alpha^2(pow2,exact)': 350,
-                       'cum.scales-alpha^2(tol)': 350, 'motions==oracle': 1700, 'trim.placement': 6000,
-                       'trim.identity(no trim,no start)': 1800, 'energy.batch-row==single': 450,
-                       'cum.batch-row==single': 450, 'motions.batch-row==single': 450, 'put2d==offsets': 8500,
-                       'join==padded+-shifted': 1400, 'purity.reductions-unchanged': 9000,
-                       'shared-reduction==fresh-copies': 2000},
-             'thorough': {'energy==oracle': 100000, 'cum==oracle': 62000, 'cum==cumsum|d(observed energy)|': 62000,
-                          'cum.non-decreasing': 62000, 'cum.zero@tau0-nodal': 11000,
-                          'cum.scales-alpha^2(pow2,exact)': 6500, 'cum.scales-alpha^2(tol)': 6500,
-                          'motions==oracle': 30000, 'trim.placement': 110000, 'trim.identity(no trim,no start)': 33000,
-                          'energy.batch-row==single': 8000, 'cum.batch-row==single': 8000,
-                          'motions.batch-row==single': 8000, 'put2d==offsets': 120000, 'join==padded+-shifted': 20000,
-                          'purity.reductions-unchanged': 160000, 'shared-reduction==fresh-copies': 35000}}
+MIN_EVALS = {'quick': {'energy==oracle': 15000, 'cum==oracle': 8800, 'cum==cumsum|d(observed energy)|': 8800,
+                       'cum.non-decreasing': 8800, 'cum.zero@tau0-nodal': 1200, 'cum.scales-alpha^2(pow2,exact)': 800,
+                       'cum.scales-alpha^2(tol)': 800, 'motions==oracle': 4600, 'trim.placement': 15000,
+                       'trim.identity(no trim,no start)': 5400, 'energy.batch-row==single': 1000,
+                       'cum.batch-row==single': 1000, 'motions.batch-row==single': 1000, 'put2d==offsets': 15000,
+                       'join==padded+-shifted': 2800, 'purity.reductions-unchanged': 18000,
+                       'purity.record,travel-times-unchanged': 28000, 'purity.trim-arguments-unchanged': 21000,
+                       'purity.values,shifts-unchanged': 18000, 'purity.shared-objects-unchanged-across-calls': 4800,
+                       'shared-reduction==fresh-copies': 4800, 'first-result-unchanged-after-second-call': 600,
+                       'history.repeat==first': 250, 'history.twin==object': 250, 'history.sequence-completed': 160},
+             'thorough': {'energy==oracle': 270000, 'cum==oracle': 158400, 'cum==cumsum|d(observed energy)|': 158400,
+                          'cum.non-decreasing': 158400, 'cum.zero@tau0-nodal': 21600,
+                          'cum.scales-alpha^2(pow2,exact)': 14400, 'cum.scales-alpha^2(tol)': 14400,
+                          'motions==oracle': 82800, 'trim.placement': 270000, 'trim.identity(no trim,no start)': 97200,
+                          'energy.batch-row==single': 18000, 'cum.batch-row==single': 18000,
+                          'motions.batch-row==single': 18000, 'put2d==offsets': 270000, 'join==padded+-shifted': 50400,
+                          'purity.reductions-unchanged': 324000, 'purity.record,travel-times-unchanged': 504000,
+                          'purity.trim-arguments-unchanged': 378000, 'purity.values,shifts-unchanged': 324000,
+                          'purity.shared-objects-unchanged-across-calls': 86400, 'shared-reduction==fresh-copies': 86400,
+                          'first-result-unchanged-after-second-call': 10800, 'history.repeat==first': 4500,
+                          'history.twin==object': 4500, 'history.sequence-completed': 2880}}
 CTX = None
 _INNER = {'active': False, 'energy': None}
 
@@ -85,16 +110,65 @@ def _parse(args, kwargs, names, defaults):
 
 
 # ------------------------------------------------------------------------------------------ monitors: surface functions
+def _array_form(a):
+    if not a.flags.writeable:
+        return 'readonly'
+    if not a.flags.c_contiguous:
+        return 'rview' if (a.ndim == 1 and a.strides[0] < 0) else 'view'
+    return 'ndarray'
+
+
 def _tt_container(tt):
+    if isinstance(tt, np.ndarray):
+        return _array_form(tt)
     if not hasattr(tt, '__len__'):
-        return 'scalar'
-    return 'list' if isinstance(tt, (list, tuple)) else 'ndarray'
+        if isinstance(tt, (bool, int, np.integer)):
+            return 'pyint'
+        return 'npfloat' if isinstance(tt, np.floating) else 'scalar'
+    if isinstance(tt, tuple):
+        return 'tuple'
+    if isinstance(tt, list):
+        ints = [isinstance(t, (int, np.integer)) for t in tt]
+        return 'list-int' if all(ints) else ('list-mixed' if any(ints) else 'list')
+    return 'ndarray'
+
+
+def _red_form(r):
+    if isinstance(r, np.ndarray):
+        return _array_form(r)
+    if isinstance(r, np.floating):
+        return 'np.' + r.dtype.name
+    return 'int' if isinstance(r, (int, np.integer)) else 'float'
+
+
+def _as_form(arr, form):
+    """Re-create a container form from plain data (used by the generators and by replay)."""
+    arr = np.array(arr)
+    if form == 'view':
+        big = np.zeros(2 * len(arr) + 1, dtype=arr.dtype)
+        big[1::2] = arr
+        return big[1::2]
+    if form == 'rview':
+        return np.array(arr[::-1])[::-1]
+    if form == 'readonly':
+        arr.flags.writeable = False
+    return arr
+
+
+class _Rec(object):
+    """The record as it was at call entry (what the reference is computed from)."""
+    def __init__(self, values, dt):
+        self.values = values
+        self.dt = dt
 
 
 def _wit_surface(fn, p, **extra):
     a = p['asig']
+    forms = p.get('_forms') or {'tt': _tt_container(p['travel_times']), 'red': _red_form(p['up_red']),
+                                'rec_readonly': not np.asarray(a.values).flags.writeable}
     d = {'fn': fn, 'values': np.asarray(a.values), 'dt': float(a.dt), 'travel_times': np.atleast_1d(np.asarray(p['travel_times'])),
-         'tt_container': _tt_container(p['travel_times']), 'nodal': p['nodal'], 'up_red': p['up_red'],
+         'tt_container': forms['tt'], 'red_form': forms['red'], 'rec_readonly': forms['rec_readonly'],
+         'nodal': p['nodal'], 'up_red': p['up_red'],
          'down_red': p['down_red'], 'stt': p['stt'], 'trim': p['trim'], 'start': p['start'],
          'same_red_object': bool(p.get('same_red_object', p['up_red'] is p['down_red'] and isinstance(p['up_red'], np.ndarray)))}
     d.update(extra)
@@ -204,34 +278,62 @@ def _as2d(result, k):
     return got
 
 
-def _snap_reductions(args, kwargs):
-    """pre-state: bit copies of ndarray reductions as they were handed in (the same object may serve as both)."""
-    p = _parse(args, kwargs, _SURF_NAMES, _SURF_DEF)
-    u, d = p['up_red'], p['down_red']
-    return {'up': u.copy() if isinstance(u, np.ndarray) else None,
-            'down': d.copy() if isinstance(d, np.ndarray) else None, 'same': u is d and isinstance(u, np.ndarray)}
+def _copy_arg(a):
+    if isinstance(a, np.ndarray):
+        return a.copy()
+    if isinstance(a, (list, tuple)):
+        return type(a)(a)
+    return a
 
 
 def _same_bits(a, b):
     return a.dtype == b.dtype and a.shape == b.shape and a.tobytes() == b.tobytes()
 
 
+def _arg_unchanged(now, before):
+    if isinstance(before, np.ndarray):
+        return isinstance(now, np.ndarray) and _same_bits(now, before)
+    if isinstance(before, (list, tuple)):
+        return (type(now) is type(before) and len(now) == len(before)
+                and all(type(x) is type(y) and x == y for x, y in zip(now, before)))
+    return True     # immutable scalar
+
+
+def _snap_args(args, kwargs):
+    """pre-state: bit copies of every array argument as handed in (one object may serve several parameters)."""
+    p = _parse(args, kwargs, _SURF_NAMES, _SURF_DEF)
+    a, u, d, tt = p['asig'], p['up_red'], p['down_red'], p['travel_times']
+    return {'x': np.array(a.values), 'dt': a.dt, 'tt': _copy_arg(tt),
+            'up': u.copy() if isinstance(u, np.ndarray) else None,
+            'down': d.copy() if isinstance(d, np.ndarray) else None, 'same': u is d and isinstance(u, np.ndarray),
+            'forms': {'tt': _tt_container(tt), 'red': _red_form(u),
+                      'rec_readonly': isinstance(a.values, np.ndarray) and not a.values.flags.writeable}}
+
+
 def _check_purity(fn, p, snap):
-    """The caller's reduction arrays are bit-for-bit what they were before the call."""
-    if snap is None or (snap['up'] is None and snap['down'] is None):
-        return
-    okk = True
-    for key, nm in (('up', 'up_red'), ('down', 'down_red')):
-        if snap[key] is not None and not (isinstance(p[nm], np.ndarray) and _same_bits(p[nm], snap[key])):
-            okk = False
-    CTX.check(okk, 'purity.reductions-unchanged',
-              lambda: _wit_surface(fn, dict(p, up_red=snap['up'] if snap['up'] is not None else p['up_red'],
-                                            down_red=snap['down'] if snap['down'] is not None else p['down_red']),
-                                   same_red_object=snap['same'], up_red_after=p['up_red'], down_red_after=p['down_red']),
-              '%s changed the caller\'s reduction array(s): up_red %s -> %s, down_red %s -> %s%s'
-              % (fn, None if snap['up'] is None else snap['up'].tolist(), np.asarray(p['up_red']).tolist(),
-                 None if snap['down'] is None else snap['down'].tolist(), np.asarray(p['down_red']).tolist(),
-                 ' (one object passed as both)' if snap['same'] else ''))
+    """Every array argument is bit-for-bit what it was before the call."""
+    before = dict(p, asig=_Rec(snap['x'], snap['dt']), travel_times=snap['tt'],
+                  up_red=snap['up'] if snap['up'] is not None else p['up_red'],
+                  down_red=snap['down'] if snap['down'] is not None else p['down_red'], _forms=snap['forms'])
+    if snap['up'] is not None or snap['down'] is not None:
+        okk = True
+        for key, nm in (('up', 'up_red'), ('down', 'down_red')):
+            if snap[key] is not None and not (isinstance(p[nm], np.ndarray) and _same_bits(p[nm], snap[key])):
+                okk = False
+        CTX.check(okk, 'purity.reductions-unchanged',
+                  lambda: _wit_surface(fn, before, same_red_object=snap['same'], up_red_after=p['up_red'],
+                                       down_red_after=p['down_red']),
+                  '%s changed the caller\'s reduction array(s): up_red %s -> %s, down_red %s -> %s%s'
+                  % (fn, None if snap['up'] is None else snap['up'].tolist(), np.asarray(p['up_red']).tolist(),
+                     None if snap['down'] is None else snap['down'].tolist(), np.asarray(p['down_red']).tolist(),
+                     ' (one object passed as both)' if snap['same'] else ''))
+    a = p['asig']
+    rec_ok = isinstance(a.values, np.ndarray) and _same_bits(a.values, snap['x']) and a.dt == snap['dt']
+    tt_ok = _arg_unchanged(p['travel_times'], snap['tt'])
+    CTX.check(rec_ok and tt_ok, 'purity.record,travel-times-unchanged',
+              lambda: _wit_surface(fn, before, same_red_object=snap['same'], values_after=np.asarray(a.values),
+                                   travel_times_after=np.asarray(p['travel_times'])),
+              '%s changed %s' % (fn, 'the record of the signal' if not rec_ok else 'the travel-time container'))
 
 
 def _check_surface(fn, args, kwargs, result, snap=None):
@@ -239,12 +341,13 @@ def _check_surface(fn, args, kwargs, result, snap=None):
     p = _parse(args, kwargs, _SURF_NAMES, _SURF_DEF)
     if snap is not None:
         _check_purity(fn, p, snap)
-        p = dict(p)     # the reference is computed from the reductions as they were handed in
+        # the reference is computed from the arguments as they were handed in, never from the objects after the call
+        p = dict(p, asig=_Rec(snap['x'], snap['dt']), travel_times=snap['tt'], _forms=snap['forms'],
+                 same_red_object=snap['same'])
         if snap['up'] is not None:
             p['up_red'] = snap['up']
         if snap['down'] is not None:
             p['down_red'] = snap['down']
-        p['same_red_object'] = snap['same']
     norm, reason = _normalise(p)
     if norm is None:
         ctx.observe('%s: out of domain (%s)' % (fn, reason))
@@ -255,7 +358,7 @@ def _check_surface(fn, args, kwargs, result, snap=None):
     ok, msg = _accept(got, x, dt, taus, bool(p['nodal']), ups, downs, stt, bool(p['trim']), bool(p['start']), kind)
     ctx.check(ok, _FN_CLAUSE[fn], lambda: _wit_surface(fn, p, got=np.asarray(result)),
               '%s(n=%d, dt=%r, tau=%s, nodal=%s, up=%s, down=%s, stt=%r, trim=%s, start=%s): %s'
-              % (fn, len(x), dt, taus, p['nodal'], ups, downs, stt, p['trim'], p['start'], msg))
+              % (fn, len(x), dt, taus[:6], p['nodal'], ups[:6], downs[:6], stt, p['trim'], p['start'], msg))
     return p, norm, got
 
 
@@ -272,7 +375,7 @@ def _post_motions(args, kwargs, result, pre):
 def _pre_cum(args, kwargs):
     _INNER['active'] = True
     _INNER['energy'] = None
-    return _snap_reductions(args, kwargs)
+    return _snap_args(args, kwargs)
 
 
 def _exc_cum(args, kwargs, exc, pre):
@@ -321,10 +424,27 @@ def _post_cum(args, kwargs, result, pre):
 
 
 # ------------------------------------------------------------------------------------------ monitor: trim_to_length
+_TRIM_NAMES = ('values', 'npts', 'surf2depth_travel_times', 'dt', 'trim', 'start', 's2s_travel_time')
+_TRIM_DEF = {'trim': False, 'start': False, 's2s_travel_time': 0.0}
+
+
+def _pre_trim(args, kwargs):
+    p = _parse(args, kwargs, _TRIM_NAMES, _TRIM_DEF)
+    return {'values': _copy_arg(p['values']), 'tt': _copy_arg(p['surf2depth_travel_times'])}
+
+
 def _post_trim(args, kwargs, result, pre):
     ctx = CTX
-    p = _parse(args, kwargs, ('values', 'npts', 'surf2depth_travel_times', 'dt', 'trim', 'start', 's2s_travel_time'),
-               {'trim': False, 'start': False, 's2s_travel_time': 0.0})
+    p = _parse(args, kwargs, _TRIM_NAMES, _TRIM_DEF)
+    if pre is not None:
+        okp = _arg_unchanged(p['values'], pre['values']) and _arg_unchanged(p['surf2depth_travel_times'], pre['tt'])
+        ctx.check(okp, 'purity.trim-arguments-unchanged',
+                  lambda: {'fn': 'trim_to_length', 'values2d': np.asarray(pre['values']), 'npts': int(p['npts']),
+                           'travel_times': np.asarray(pre['tt']), 'dt': float(p['dt']), 'trim': bool(p['trim']),
+                           'start': bool(p['start']), 'stt': float(p['s2s_travel_time']),
+                           'values2d_form': _array_form(p['values']) if isinstance(p['values'], np.ndarray) else 'ndarray'},
+                  'trim_to_length changed its values / travel-time argument')
+        p = dict(p, values=pre['values'], surf2depth_travel_times=pre['tt'])
     values = np.asarray(p['values'])
     taus = [float(t) for t in np.atleast_1d(np.asarray(p['surf2depth_travel_times'], dtype=float)).ravel()]
     npts, dt, stt = int(p['npts']), float(p['dt']), float(p['s2s_travel_time'])
@@ -334,7 +454,8 @@ def _post_trim(args, kwargs, result, pre):
         ctx.observe('trim_to_length: out of domain')
         return
     got = np.asarray(result)
-    wit = lambda: {'fn': 'trim_to_length', 'values2d': values, 'npts': npts, 'travel_times': np.array(taus), 'dt': dt,
+    wit = lambda: {'fn': 'trim_to_length', 'values2d': values, 'npts': npts,
+                   'travel_times': np.atleast_1d(np.asarray(p['surf2depth_travel_times'])), 'dt': dt,
                    'trim': trim, 'start': start, 'stt': stt, 'got': got}
     if not trim and not start:
         ctx.check(got.shape == values.shape and bool(np.array_equal(got, values)), 'trim.identity(no trim,no start)', wit,
@@ -349,7 +470,7 @@ def _post_trim(args, kwargs, result, pre):
             continue
         good = True
         for r in range(len(taus)):
-            ref = np.array(O.place(values[r].tolist(), shifts[r], length, tail_constant=False), dtype=float)
+            ref = np.array(O.place([float(v) for v in values[r].tolist()], shifts[r], length, tail_constant=False), dtype=float)
             if not np.array_equal(got[r], ref):
                 good = False
                 bad = int(np.flatnonzero(got[r] != ref)[0])
@@ -373,9 +494,33 @@ def _int_shifts(shifts):
         return None
 
 
+def _pre_shift(args, kwargs):
+    p = _parse(args, kwargs, ('values', 'shifts', 'third'), {})
+    return {'values': _copy_arg(p['values']), 'shifts': _copy_arg(p['shifts'])}
+
+
+def _container_name(a):
+    return _array_form(a) if isinstance(a, np.ndarray) else type(a).__name__
+
+
+def _shift_purity(fn, p, pre, third_name):
+    if pre is None:
+        return p
+    okp = _arg_unchanged(p['values'], pre['values']) and _arg_unchanged(p['shifts'], pre['shifts'])
+    CTX.check(okp, 'purity.values,shifts-unchanged',
+              lambda: {'fn': fn, 'values': np.asarray(pre['values']), 'shifts': np.asarray(pre['shifts']),
+                       third_name: p[third_name], 'values_container': _container_name(p['values']),
+                       'shifts_container': _container_name(p['shifts']), 'purity_only': True},
+              '%s changed its values / shifts argument' % fn)
+    return dict(p, values=pre['values'], shifts=pre['shifts'], _vc=_container_name(p['values']), _sc=_container_name(p['shifts']))
+
+
 def _post_put(args, kwargs, result, pre):
     ctx = CTX
     p = _parse(args, kwargs, ('values', 'shifts', 'clip'), {'clip': 'none'})
+    p = _shift_purity('put_array_in_2d_array', p, pre, 'clip')
+    if p['clip'] is None:      # documented as "str or none": no clipping
+        p = dict(p, clip='none', _clip_none=True)
     sh = _int_shifts(p['shifts'])
     try:
         vals = np.asarray(p['values'], dtype=float)
@@ -391,8 +536,9 @@ def _post_put(args, kwargs, result, pre):
     okk = got.shape == ref.shape and bool(np.array_equal(got, ref))
     ctx.check(okk, 'put2d==offsets',
               lambda: {'fn': 'put_array_in_2d_array', 'values': np.asarray(p['values']), 'shifts': np.asarray(p['shifts']),
-                       'clip': p['clip'], 'values_container': type(p['values']).__name__,
-                       'shifts_container': type(p['shifts']).__name__, 'got': got},
+                       'clip': None if p.get('_clip_none') else p['clip'],
+                       'values_container': p.get('_vc', _container_name(p['values'])),
+                       'shifts_container': p.get('_sc', _container_name(p['shifts'])), 'got': got},
               'put_array_in_2d_array(n=%d, shifts=%s, clip=%r) -> shape %s expected %s%s'
               % (vals.size, sh, p['clip'], got.shape, ref.shape,
                  '' if got.shape != ref.shape else '; first differing cell %s' % (np.argwhere(got != ref)[:1].tolist(),)))
@@ -401,6 +547,7 @@ def _post_put(args, kwargs, result, pre):
 def _post_join(args, kwargs, result, pre):
     ctx = CTX
     p = _parse(args, kwargs, ('values', 'shifts', 'jtype'), {'jtype': 'add'})
+    p = _shift_purity('join_values_w_shifts', p, pre, 'jtype')
     sh = _int_shifts(p['shifts'])
     try:
         vals = np.asarray(p['values'], dtype=float)
@@ -421,8 +568,8 @@ def _post_join(args, kwargs, result, pre):
     okk = tol.close(got, ref, scale=np.array(mags, dtype=float), rtol=1e-12)
     ctx.check(okk, 'join==padded+-shifted',
               lambda: {'fn': 'join_values_w_shifts', 'values': np.asarray(p['values']), 'shifts': np.asarray(p['shifts']),
-                       'jtype': p['jtype'], 'values_container': type(p['values']).__name__,
-                       'shifts_container': type(p['shifts']).__name__, 'got': got},
+                       'jtype': p['jtype'], 'values_container': p.get('_vc', _container_name(p['values'])),
+                       'shifts_container': p.get('_sc', _container_name(p['shifts'])), 'got': got},
               'join_values_w_shifts(n=%d, shifts=%s, %r): %s' % (vals.size, sh, p['jtype'],
                                                                tol.describe(got, ref, scale=np.array(mags), rtol=1e-12)))
 
@@ -439,48 +586,112 @@ def install(ctx):
     if getattr(sf.calc_surface_energy, '__vf_c19__', False):    # already attached in this process: only switch the context
         return
     ts = eqsig.fns.time_shift
-    attach.wrap(sf, 'calc_surface_energy', _post_energy, pre=_snap_reductions).__vf_c19__ = True
+    attach.wrap(sf, 'calc_surface_energy', _post_energy, pre=_snap_args).__vf_c19__ = True
     attach.wrap(sf, 'calc_cum_abs_surface_energy', _post_cum, pre=_pre_cum, on_exception=_exc_cum)
-    attach.wrap(sf, 'get_time_shift_motions', _post_motions, pre=_snap_reductions)
-    attach.wrap(sf, 'trim_to_length', _post_trim)
-    attach.wrap(ts, 'put_array_in_2d_array', _post_put)
-    attach.wrap(ts, 'join_values_w_shifts', _post_join)
+    attach.wrap(sf, 'get_time_shift_motions', _post_motions, pre=_snap_args)
+    attach.wrap(sf, 'trim_to_length', _post_trim, pre=_pre_trim)
+    attach.wrap(ts, 'put_array_in_2d_array', _post_put, pre=_pre_shift)
+    attach.wrap(ts, 'join_values_w_shifts', _post_join, pre=_pre_shift)
     attach.wrap(ts, 'join_sig_w_time_shift', _post_join_sig)
 
 
 # ---------------------------------------------------------------------------------------------------- driver helpers
 def _tt_arg(c):
-    tt = np.atleast_1d(np.asarray(c['travel_times']))
-    cont = c.get('tt_container', 'ndarray')
+    """The travel-time argument: the case's own object when it has one (reused across the calls of a case), else built
+    from the container name (relation singles, replay)."""
+    if c.get('tt_obj') is not None:
+        return c['tt_obj']
+    return _build_tt(c['travel_times'], c.get('tt_container', 'ndarray'))
+
+
+def _build_tt(travel_times, cont):
+    tt = np.atleast_1d(np.asarray(travel_times))
     if cont == 'scalar':
         return float(tt[0])
+    if cont == 'npfloat':
+        return np.float64(tt[0])
+    if cont == 'pyint':
+        return int(tt[0])
     if cont == 'list':
         return [float(t) for t in tt]
-    return np.array(tt)
+    if cont == 'tuple':
+        return tuple(float(t) for t in tt)
+    if cont == 'list-int':
+        return [int(t) for t in tt]
+    if cont == 'list-mixed':
+        return [int(t) if (i % 2 == 0 and float(t) == int(t)) else float(t) for i, t in enumerate(tt)]
+    return _as_form(tt, cont)
 
 
-def _kwargs(c):
-    kw = {'nodal': c['nodal'], 'stt': c['stt'], 'trim': c['trim'], 'start': c['start']}
-    if c.get('up_red') is not None:
-        kw['up_red'] = c['up_red']
-        kw['down_red'] = c['up_red'] if c.get('same_red_object') else c['down_red']   # one object for both when recorded so
-    return kw
+def _bool_form(v, form):
+    if form == 'int':
+        return int(bool(v))
+    if form == 'np':
+        return np.bool_(bool(v))
+    return bool(v)
+
+
+def _call_args(c, asig):
+    """(args, kwargs) of one call in the case's call style: 'kw', 'pos', 'mixed' or 'omit' (defaults left out)."""
+    bf = c.get('bool_form', 'bool')
+    nodal, trim, start = _bool_form(c['nodal'], bf), _bool_form(c['trim'], bf), _bool_form(c['start'], bf)
+    stt = c['stt']
+    if c.get('stt_form') == 'int' and stt == 0:
+        stt = 0
+    elif c.get('stt_form') == 'np':
+        stt = np.float64(stt)
+    u, d = c.get('up_red'), c.get('down_red')
+    if u is not None and c.get('same_red_object'):
+        d = u        # one object for both parameters
+    style = c.get('call_style', 'kw')
+    tt = _tt_arg(c)
+    if style == 'pos':
+        return (asig, tt, nodal, 1. if u is None else u, 1. if d is None else d, stt, trim, start), {}
+    kw = {'nodal': nodal, 'stt': stt, 'trim': trim, 'start': start}
+    if u is not None:
+        kw['up_red'] = u
+        kw['down_red'] = d
+    if style == 'omit':
+        for key, dflt in (('nodal', True), ('stt', 0.0), ('trim', False), ('start', False)):
+            if type(kw[key]) in (bool, float, int) and kw[key] == dflt:
+                del kw[key]
+        return (asig, tt), kw
+    if style == 'mixed':
+        return (asig, tt, kw.pop('nodal')), kw
+    if style == 'kw-all':
+        return (), dict(kw, asig=asig, travel_times=tt)
+    return (asig, tt), kw
+
+
+def _make_sig(eqsig, c, values=None):
+    asig = eqsig.AccSignal(c['values'] if values is None else values, c['dt'])
+    if c.get('rec_readonly'):
+        asig.values.flags.writeable = False      # an implementation that writes into the record raises instead of corrupting
+    return asig
 
 
 def _case_wit(fn, c, **extra):
+    u = c.get('up_red')
     d = {'fn': fn, 'values': np.asarray(c['values']), 'dt': c['dt'], 'travel_times': np.atleast_1d(np.asarray(c['travel_times'])),
-         'tt_container': c.get('tt_container', 'ndarray'), 'nodal': c['nodal'], 'up_red': c.get('up_red'),
-         'down_red': c.get('down_red'), 'stt': c['stt'], 'trim': c['trim'], 'start': c['start'],
-         'same_red_object': bool(c.get('same_red_object', False))}
+         'tt_container': c.get('tt_container', 'ndarray'), 'nodal': bool(c['nodal']), 'up_red': u,
+         'down_red': c.get('down_red'), 'stt': c['stt'], 'trim': bool(c['trim']), 'start': bool(c['start']),
+         'same_red_object': bool(c.get('same_red_object', False)), 'red_form': None if u is None else _red_form(u),
+         'rec_readonly': bool(c.get('rec_readonly', False)), 'call_style': c.get('call_style', 'kw'),
+         'bool_form': c.get('bool_form', 'bool'), 'stt_form': c.get('stt_form', 'float'),
+         'values_container': type(c['values']).__name__}
+    if c.get('tt_obj') is not None and isinstance(c['tt_obj'], np.ndarray):
+        d['travel_times'] = np.array(c['tt_obj'])      # keeps the dtype of the container
     d.update(extra)
     return d
 
 
-def _call(eqsig, ctx, fn, c, values=None):
+def _call(eqsig, ctx, fn, c, values=None, asig=None):
     """One monitored call through the public name; an exception on this in-domain input is a violation."""
-    asig = eqsig.AccSignal(np.array(c['values'] if values is None else values), c['dt'])
     try:
-        return getattr(eqsig.surface, fn)(asig, _tt_arg(c), **_kwargs(c))
+        if asig is None:
+            asig = _make_sig(eqsig, c, values)
+        args, kw = _call_args(c, asig)
+        return getattr(eqsig.surface, fn)(*args, **kw)
     except Exception as e:
         w = _case_wit(fn, c)
         if values is not None:
@@ -494,8 +705,14 @@ def _row_red(c, r):
     if u is None:
         return None, None
     if hasattr(u, '__len__'):
+        if isinstance(c['values'], np.ndarray) and c['values'].dtype == np.float32:
+            return np.float64(u[r]), np.float64(d[r])   # a python-float factor times a float32 record is a float32 product
         return float(u[r]), float(d[r])
     return u, d
+
+
+def _x64(c):
+    return np.asarray(c['values'], dtype=float)
 
 
 def _rel_batch(eqsig, ctx, fn, c, batch=None):
@@ -509,10 +726,11 @@ def _rel_batch(eqsig, ctx, fn, c, batch=None):
         return
     batch = np.asarray(batch)
     clause = '%s.batch-row==single' % _REL_NAME[fn]
-    x = np.asarray(c['values'], dtype=float)
+    x = _x64(c)
     for r in range(len(taus)):
         u, d = _row_red(c, r)
-        c1 = dict(c, travel_times=np.array([taus[r]]), tt_container=('scalar' if r % 2 == 0 else 'ndarray'), up_red=u, down_red=d)
+        c1 = dict(c, travel_times=np.array([taus[r]]), tt_obj=None, tt_container=('scalar' if r % 2 == 0 else 'ndarray'),
+                  up_red=u, down_red=d, same_red_object=False)
         single = _call(eqsig, ctx, fn, c1)
         if single is None:
             continue
@@ -537,7 +755,7 @@ def _rel_alpha(eqsig, ctx, c, alpha, base=None):
         base = _call(eqsig, ctx, fn, c)
     if base is None:
         return
-    x = np.asarray(c['values'], dtype=float)
+    x = _x64(c)
     scaled = _call(eqsig, ctx, fn, c, values=x * alpha)
     if scaled is None:
         return
@@ -560,21 +778,42 @@ def _rel_alpha(eqsig, ctx, c, alpha, base=None):
                                                                   if scaled.shape == ref.shape else 'shape'))
 
 
-def _direct_trim(eqsig, ctx, c):
-    """trim_to_length on an integer-coded array of the width its callers use."""
+def _direct_trim(eqsig, ctx, c, i=0):
+    """trim_to_length on an integer-coded array of the width its callers use; several container forms and call styles."""
     taus = np.atleast_1d(np.asarray(c['travel_times'], dtype=float))
     n = len(c['values'])
     width = n + int(np.max(2 * taus / c['dt']))
     vals = (1000.0 * (np.arange(len(taus))[:, None] + 1) + np.arange(width)[None, :] + 1.0)
+    form = ['ndarray', 'ndarray', 'int64', 'fortran', 'readonly', 'colview', 'int16'][i % 7]
+    if form == 'int64':
+        vals = vals.astype(np.int64)
+    elif form == 'int16':
+        vals = (vals % 30000).astype(np.int16) + 1
+    elif form == 'fortran':
+        vals = np.asfortranarray(vals)
+    elif form == 'readonly':
+        vals.flags.writeable = False
+    elif form == 'colview':
+        big = np.zeros((len(taus), 2 * width))
+        big[:, ::2] = vals
+        vals = big[:, ::2]
+    tt = _tt_arg(c)
+    tt = tt if isinstance(tt, np.ndarray) else taus      # the function divides its travel times: ndarray forms only
     try:
-        eqsig.surface.trim_to_length(vals, n, taus, c['dt'], trim=c['trim'], start=c['start'], s2s_travel_time=c['stt'])
+        if i % 3 == 0:
+            eqsig.surface.trim_to_length(vals, n, tt, c['dt'], bool(c['trim']), bool(c['start']), c['stt'])
+        else:
+            eqsig.surface.trim_to_length(vals, n, tt, c['dt'], trim=c['trim'], start=c['start'], s2s_travel_time=c['stt'])
     except Exception as e:
-        ctx.exception('trim.placement', {'fn': 'trim_to_length', 'values2d': vals, 'npts': n, 'travel_times': taus,
-                                         'dt': c['dt'], 'trim': c['trim'], 'start': c['start'], 'stt': c['stt']}, e)
+        ctx.exception('trim.placement', {'fn': 'trim_to_length', 'values2d': np.array(vals), 'npts': n, 'travel_times': np.array(tt),
+                                         'dt': c['dt'], 'trim': bool(c['trim']), 'start': bool(c['start']), 'stt': c['stt'],
+                                         'values2d_form': form}, e)
 
 
 # ---------------------------------------------------------------------------------------------------- generators
-DYADIC_DT = [1.0, 0.5, 0.25, 0.125, 1.0 / 64, 1.0 / 128]
+DYADIC_DT = [1.0, 0.5, 0.25, 0.125, 1.0 / 64, 1.0 / 128, 2.0, 2.0 ** -20, 2.0 ** -30, 8.0, 1024.0]
+INT_TAU_DT = [0.25, 0.5, 1.0, 2.0, 10.0, 100.0, 1000.0]
+N_CHOICES = [1, 2, 3, 4, 5, 7, 8, 9, 13, 15, 16, 17, 30, 31, 32, 33, 63, 64, 65, 67, 120, 127, 128, 129, 250, 255, 256, 257, 400]
 _KNIFE = {}
 
 
@@ -593,6 +832,8 @@ def knife_tables(dt):
             q = t / dt
             if q != k and abs(q - k) <= 8 * O.EPS * k:
                 floor.append((t, k))
+    if len(_KNIFE) > 64:
+        _KNIFE.clear()
     _KNIFE[dt] = (delay, floor)
     return _KNIFE[dt]
 
@@ -601,11 +842,15 @@ def draw_dt(rng):
     r = rng.random()
     if r < 0.2:
         return float(DYADIC_DT[int(rng.integers(len(DYADIC_DT)))]), 'dyadic'
-    if r < 0.65:
+    if r < 0.58:
         return gen.dt(rng, 'nice'), 'nice'
-    if r < 0.8:
+    if r < 0.7:
         return gen.dt(rng, 'recip'), 'recip'
-    return gen.dt(rng, 'log'), 'log'
+    if r < 0.82:
+        return gen.dt(rng, 'log'), 'log'
+    if r < 0.92:
+        return float(10.0 ** rng.uniform(-9, 3)), 'wide-log'         # 1e-9 .. 1e3
+    return float(10.0 ** int(rng.integers(-9, 4))), 'decade'         # 1e-9, 1e-8, ..., 1e3 exactly
 
 
 def _pick(rng, table, kmax):
@@ -629,62 +874,212 @@ def draw_tau(rng, kind, n, dt, delay_tab, floor_tab, prev):
     return float(rng.uniform(0, 8 * dt))
 
 
-def gen_surface_case(rng):
-    n = int(rng.choice([1, 2, 3, 5, 8, 13, 30, 67, 120, 250, 400], p=[.02, .05, .06, .1, .12, .15, .2, .14, .1, .04, .02]))
-    x, rcls = gen.record(rng, n)
-    if rng.random() < 0.25 and n > 1:   # make sure both ends are non-zero often (discontinuous at the record boundaries)
-        x = x + (np.max(np.abs(x)) + 1.0) * float(rng.choice([-1.0, 1.0])) * 0.5
-    if rng.random() < 0.15:
+def draw_record(rng, n):
+    """Record from the shared classes, amplitudes 1e-12 .. 1e12, with end-of-record features."""
+    amp = float(10.0 ** rng.uniform(-12, 12)) if rng.random() < 0.3 else None
+    x, rcls = gen.record(rng, n, amp=amp)
+    r = rng.random()
+    if n > 1:
+        if r < 0.2:      # both ends non-zero (the record is discontinuous at its boundaries)
+            x = x + (np.max(np.abs(x)) + 1.0) * float(rng.choice([-1.0, 1.0])) * 0.5
+            rcls += '+offset'
+        elif r < 0.27:   # extreme at the first sample
+            x = x.copy()
+            x[0] = 2.0 * (np.max(np.abs(x)) + 1e-300) * float(rng.choice([-1.0, 1.0]))
+            rcls += '+extreme-first'
+        elif r < 0.34:   # extreme at the last sample
+            x = x.copy()
+            x[-1] = 2.0 * (np.max(np.abs(x)) + 1e-300) * float(rng.choice([-1.0, 1.0]))
+            rcls += '+extreme-last'
+        elif r < 0.41 and n > 4:   # plateaus at the start and at the end
+            x = x.copy()
+            a, b = int(rng.integers(1, n // 2 + 1)), int(rng.integers(1, n // 2 + 1))
+            x[:a] = x[a - 1] if rng.random() < 0.5 else 1.0
+            x[-b:] = x[-b]
+            rcls += '+end-plateaus'
+        elif r < 0.46 and n > 2:   # ends right after a sign change
+            x = x.copy()
+            x[-1] = -x[-2] if x[-2] != 0 else 1.0
+            rcls += '+ends-after-sign-change'
+        elif r < 0.5:    # large offset on a small signal
+            x = x * 1e-6 + (np.max(np.abs(x)) + 1.0) * 1e3
+            rcls += '+large-offset'
+    if rng.random() < 0.12:
         x = np.round(x * 4) / 4
-    dt, dtk = draw_dt(rng)
-    delay_tab, floor_tab = knife_tables(dt)
-    k = int(rng.choice([1, 2, 3, 4], p=[.3, .3, .25, .15]))
-    tk = str(rng.choice(['all-knife', 'all-half', 'all-frac', 'zero-nodal', 'mixed'], p=[.17, .13, .12, .13, .45]))
-    taus = []
-    for i in range(k):
-        if tk == 'all-knife':
-            kind = 'knife' if delay_tab else 'half'
-        elif tk == 'all-half':
-            kind = 'half'
-        elif tk == 'all-frac':
-            kind = 'long' if rng.random() < 0.5 else 'short'
-        elif tk == 'zero-nodal' and (i == 0 or rng.random() < 0.3):
-            kind = 'zero'
+    return np.asarray(x, dtype=float), rcls
+
+
+INT_DTYPES = ['int64', 'int32', 'int16', 'int8', 'uint8', 'uint16']
+
+
+def record_container(rng, x):
+    """The same record in another container/dtype (integer forms use most of the dtype's range). -> (container, kind)"""
+    r = rng.random()
+    n = len(x)
+    if r < 0.45:
+        return x, 'float64'
+    if r < 0.55:
+        with np.errstate(over='ignore'):
+            x32 = x.astype(np.float32)
+        return (x32, 'float32') if np.all(np.isfinite(x32)) else (x, 'float64')
+    if r < 0.75:
+        dtn = INT_DTYPES[int(rng.integers(len(INT_DTYPES)))]
+        top = min(float(np.iinfo(dtn).max), 2.0 ** 52)
+        m = float(np.max(np.abs(x)))
+        unit = x / m if m > 0 else x
+        if dtn.startswith('u'):
+            xi = np.round((unit * 0.5 + 0.5) * top)
         else:
-            kind = str(rng.choice(['zero', 'half', 'knife', 'floorknife', 'short', 'long', 'equal'],
-                                  p=[.1, .15, .2, .1, .2, .15, .1]))
-        taus.append(draw_tau(rng, kind, n, dt, delay_tab, floor_tab, taus))
-    order = rng.permutation(k)
-    taus = [taus[i] for i in order]
+            xi = np.round(unit * top)
+        return xi.astype(dtn), dtn
+    if r < 0.8:
+        return [float(v) for v in x], 'list'
+    if r < 0.84:
+        return tuple(float(v) for v in x), 'tuple'
+    if r < 0.88:
+        return [int(v) for v in np.round(np.clip(x, -1e15, 1e15))], 'list-int'
+    if r < 0.94:
+        big = np.zeros(2 * n + 1)
+        big[1::2] = x
+        return big[1::2], 'view'
+    if r < 0.97:
+        return np.array(x[::-1])[::-1], 'rview'
+    ro = x.copy()
+    ro.flags.writeable = False
+    return ro, 'readonly'
+
+
+def gen_surface_case(rng):
+    n = int(N_CHOICES[int(rng.integers(len(N_CHOICES)))]) if rng.random() < 0.5 else \
+        int(rng.choice([1, 2, 3, 5, 8, 13, 30, 67, 120, 250, 400], p=[.02, .05, .06, .1, .12, .15, .2, .14, .1, .04, .02]))
+    x, rcls = draw_record(rng, n)
+    tk = str(rng.choice(['all-knife', 'all-half', 'all-frac', 'zero-nodal', 'mixed', 'boundary', 'int-tau'],
+                        p=[.15, .11, .1, .11, .33, .1, .1]))
+    k = int(rng.choice([1, 2, 3, 4], p=[.3, .3, .25, .15]))
+    stt = None
+    if tk == 'boundary':
+        # exact ties: the delay equals the record length (+-1, -2), a whole-sample move equal to the record length (+-1)
+        dt, dtk = float(DYADIC_DT[int(rng.integers(len(DYADIC_DT)))]), 'dyadic'
+        taus = [max(int(rng.choice([n - 2, n - 1, n, n + 1, 1, 2, 2 * n, 2 * n - 2])), 0) * dt / 2 for _ in range(k)]
+        f0 = int(taus[0] / dt)
+        stt = float((f0 + int(rng.choice([n - 1, n, n + 1, 0, 1, -1]))) * dt)
+        stt = max(stt, 0.0)
+    elif tk == 'int-tau':
+        # integral travel times (integer containers of every width, incl. values whose doubling leaves the dtype)
+        dt, dtk = float(INT_TAU_DT[int(rng.integers(len(INT_TAU_DT)))]), 'int-tau'
+        hi = max(int(1.5 * n * dt), 1)
+        if rng.random() < 0.5 and hi >= 70:
+            hi = min(hi, int(rng.choice([127, 255])))
+            taus = [float(rng.integers(max(hi // 2, 1), hi + 1)) for _ in range(k)]
+        else:
+            taus = [float(rng.integers(0, hi + 1)) for _ in range(k)]
+    else:
+        dt, dtk = draw_dt(rng)
+    delay_tab, floor_tab = knife_tables(dt)
+    if tk not in ('boundary', 'int-tau'):
+        taus = []
+        for i in range(k):
+            if tk == 'all-knife':
+                kind = 'knife' if delay_tab else 'half'
+            elif tk == 'all-half':
+                kind = 'half'
+            elif tk == 'all-frac':
+                kind = 'long' if rng.random() < 0.5 else 'short'
+            elif tk == 'zero-nodal' and (i == 0 or rng.random() < 0.3):
+                kind = 'zero'
+            else:
+                kind = str(rng.choice(['zero', 'half', 'knife', 'floorknife', 'short', 'long', 'equal'],
+                                      p=[.1, .15, .2, .1, .2, .15, .1]))
+            taus.append(draw_tau(rng, kind, n, dt, delay_tab, floor_tab, taus))
+        order = rng.permutation(k)
+        taus = [taus[i] for i in order]
     nodal = bool(rng.random() < 0.5) or tk == 'zero-nodal'
     trim, start = bool(rng.random() < 0.5), bool(rng.random() < 0.5)
+    if stt is None:
+        r = rng.random()
+        if r < 0.3:
+            stt = 0.0
+        elif r < 0.5:
+            stt = float(rng.uniform(0, 6 * dt))
+        elif r < 0.72:
+            stt = float(rng.uniform(0, 1.5 * n * dt))
+        elif r < 0.85 or not floor_tab:
+            stt = float(int(rng.integers(0, int(1.5 * n) + 2)) * dt)
+        else:
+            stt = float(_pick(rng, floor_tab, int(1.5 * n) + 1))
+    # -- record container -------------------------------------------------------------------------------------------
+    vals, rk = record_container(rng, x)
+    f32rec = rk == 'float32'
+    # -- reductions ---------------------------------------------------------------------------------------------------
     r = rng.random()
-    if r < 0.3:
-        stt = 0.0
-    elif r < 0.5:
-        stt = float(rng.uniform(0, 6 * dt))
-    elif r < 0.72:
-        stt = float(rng.uniform(0, 1.5 * n * dt))
-    elif r < 0.85 or not floor_tab:
-        stt = float(int(rng.integers(0, int(1.5 * n) + 2)) * dt)
-    else:
-        stt = float(_pick(rng, floor_tab, int(1.5 * n) + 1))
-    r = rng.random()
-    if r < 0.25:
+    same_obj = False
+    if r < 0.22:
         up = down = None
-    elif r < 0.55:
-        up = float(rng.choice([1.0, 0.5, float(rng.uniform(0.05, 1.0))]))
-        down = up if (rng.random() < 0.3 or tk == 'zero-nodal') else float(rng.choice([1.0, 0.25, float(rng.uniform(0.05, 1.0))]))
+    elif r < 0.52:
+        if f32rec:      # a python-float factor times a float32 record is a float32 product: keep it exact or force float64
+            up = float(rng.choice([1.0, 0.5, 0.25])) if rng.random() < 0.5 else np.float64(rng.uniform(0.05, 1.0))
+            down = up if (rng.random() < 0.3 or tk == 'zero-nodal') else type(up)(rng.choice([1.0, 0.5, 0.125]))
+        else:
+            q = rng.random()
+            if q < 0.15:
+                up = down = 1                                   # python int
+            elif q < 0.3:
+                up = np.float32(rng.choice([0.5, 0.75, 0.3, 1.0]))
+                down = up if (rng.random() < 0.3 or tk == 'zero-nodal') else np.float32(rng.uniform(0.05, 1.0))
+            elif q < 0.45:
+                up = np.float64(rng.uniform(0.05, 1.0))
+                down = up if (rng.random() < 0.3 or tk == 'zero-nodal') else np.float64(rng.uniform(0.05, 1.0))
+            else:
+                up = float(rng.choice([1.0, 0.5, 1e-12, float(rng.uniform(0.05, 1.0))]))
+                down = up if (rng.random() < 0.3 or tk == 'zero-nodal') else float(rng.choice([1.0, 0.25, float(rng.uniform(0.05, 1.0))]))
     else:
         up = rng.uniform(0.05, 1.0, size=k)
         down = up.copy() if (rng.random() < 0.25 or tk == 'zero-nodal') else rng.uniform(0.05, 1.0, size=k)
+        if rng.random() < 0.15:
+            up[int(rng.integers(k))] = 1.0
+        q = rng.random()
+        if not f32rec and q < 0.12:
+            up, down = up.astype(np.float32), down.astype(np.float32)
+        elif q < 0.2:
+            dtn = str(rng.choice(['int64', 'uint8', 'int8', 'int32']))
+            up, down = np.ones(k, dtype=dtn), np.ones(k, dtype=dtn)
+        form = str(rng.choice(['ndarray', 'view', 'rview', 'readonly'], p=[.55, .15, .1, .2]))
+        up, down = _as_form(up, form), _as_form(down, form)
+        if rng.random() < 0.15 and np.array_equal(up, down):
+            down = up
+            same_obj = True
+    # -- travel-time container ------------------------------------------------------------------------------------------
+    integral = all(float(t) == int(t) for t in taus)
+    tarr = np.array(taus, dtype=float)
+    opts = ['ndarray', 'ndarray', 'view', 'rview', 'readonly', 'list', 'tuple']
     if k == 1:
-        cont = str(rng.choice(['scalar', 'list', 'ndarray'], p=[.4, .2, .4]))
+        opts += ['scalar', 'scalar', 'npfloat']
+    if integral:
+        opts += ['int-array', 'int-array', 'int-array', 'list-int', 'list-mixed'] + (['pyint'] if k == 1 else [])
+    if tk == 'int-tau':
+        opts += ['int-array'] * 6
+    if dtk == 'dyadic' and tk in ('all-half', 'boundary') and max(taus) < 2.0 ** 20 * dt:
+        opts += ['f32-array', 'f32-array']
+    cont = opts[int(rng.integers(len(opts)))]
+    if cont == 'int-array':
+        fits = [d for d in INT_DTYPES if max(taus) <= np.iinfo(d).max]
+        tt_obj = _as_form(tarr.astype(fits[int(rng.integers(len(fits)))]), str(rng.choice(['ndarray', 'view', 'readonly'])))
+        cont = _array_form(tt_obj)
+    elif cont == 'f32-array':
+        tt_obj = tarr.astype(np.float32)
+        cont = 'ndarray'
     else:
-        cont = str(rng.choice(['list', 'ndarray'], p=[.25, .75]))
-    c = {'values': x, 'dt': dt, 'travel_times': np.array(taus), 'tt_container': cont, 'nodal': nodal, 'up_red': up,
-         'down_red': down, 'stt': stt, 'trim': trim, 'start': start}
+        tt_obj = _build_tt(tarr, cont)
+    c = {'values': vals, 'dt': dt, 'travel_times': tarr, 'tt_obj': tt_obj, 'tt_container': cont, 'nodal': nodal,
+         'up_red': up, 'down_red': down, 'same_red_object': same_obj, 'stt': stt, 'trim': trim, 'start': start,
+         'rec_readonly': bool(rng.random() < 0.3),
+         'call_style': str(rng.choice(['kw', 'pos', 'mixed', 'omit', 'kw-all'], p=[.4, .2, .15, .15, .1])),
+         'bool_form': str(rng.choice(['bool', 'int', 'np'], p=[.7, .15, .15])),
+         'stt_form': str(rng.choice(['float', 'int', 'np'], p=[.6, .25, .15]))}
     cls = 'surface:%s/dt-%s/%s%s%s' % (tk, dtk, 'N' if nodal else 'A', 'T' if trim else '-', 'S' if start else '-')
+    c['forms_cls'] = 'rec-%s|tt-%s%s|red-%s|%s' % (rk, cont, '' if not isinstance(tt_obj, np.ndarray) else ':' + tt_obj.dtype.name,
+                                                   'default' if up is None else _red_form(up) + (':' + up.dtype.name if isinstance(up, np.ndarray) else ''),
+                                                   c['call_style'])
     return c, cls, rcls
 
 
@@ -699,7 +1094,7 @@ def draw_alpha(rng, i):
 
 def run_surface_case(eqsig, ctx, c, i, alpha):
     cum = _call(eqsig, ctx, 'calc_cum_abs_surface_energy', c)
-    _direct_trim(eqsig, ctx, c)
+    _direct_trim(eqsig, ctx, c, i)
     if cum is None:     # the exception has been recorded; the relations need the base result
         return
     if i % 2 == 0 and not (len(c['travel_times']) > 1 and i % 3 == 2):
@@ -720,58 +1115,224 @@ def run_surface_case(eqsig, ctx, c, i, alpha):
 
 
 def _seq_shared_reductions(eqsig, ctx, c, i):
-    """Consecutive calls that share ONE reduction ndarray (passed as up_red and as down_red): nodal then anti-nodal energy,
-    then the cumulative series, then the motions. The array must stay bit-for-bit what it was, and every call must give what
-    a call with fresh copies gives (the monitors judge each call against the reductions handed in)."""
+    """Consecutive calls on ONE AccSignal that share ONE reduction ndarray (passed as up_red and as down_red) and ONE
+    travel-time object: nodal then anti-nodal energy, the cumulative series (both), the motions. Every argument object must
+    stay bit-for-bit what it was BEFORE the first call, and every call must give what a call with fresh copies gives (the
+    monitors judge each call against the arguments as handed in)."""
     k = len(c['travel_times'])
-    red = np.array(c['up_red'], dtype=float) if isinstance(c.get('up_red'), np.ndarray) else \
-        np.linspace(0.3, 0.9, k) * (1.0 if i % 2 else 0.5)
+    u = c.get('up_red')
+    if isinstance(u, np.ndarray) and u.dtype.kind == 'f' and u.flags.writeable:
+        red = np.array(u, dtype=float)
+    else:
+        red = np.linspace(0.3, 0.9, k) * (1.0 if i % 2 else 0.5)
+    if i % 3 == 0:
+        red.flags.writeable = False
     keep = red.copy()
+    tt_keep = _copy_arg(c['tt_obj'])
     c2 = dict(c, up_red=red, down_red=red, same_red_object=True)
+    try:
+        asig = _make_sig(eqsig, c2)
+    except Exception as e:
+        ctx.exception('energy==oracle', _case_wit('calc_surface_energy', c2), e)
+        return
+    x_keep = np.array(asig.values)
     seq = [('calc_surface_energy', True), ('calc_surface_energy', False), ('calc_cum_abs_surface_energy', c['nodal']),
            ('calc_cum_abs_surface_energy', not c['nodal']), ('get_time_shift_motions', c['nodal'])]
     for fn, nodal in seq:
         cc = dict(c2, nodal=nodal)
-        got = _call(eqsig, ctx, fn, cc)
-        ctx.check(_same_bits(red, keep), 'purity.reductions-unchanged',
+        got = _call(eqsig, ctx, fn, cc, asig=asig)
+        pure = _same_bits(red, keep) and _arg_unchanged(c['tt_obj'], tt_keep) and _same_bits(np.asarray(asig.values), x_keep)
+        ctx.check(pure, 'purity.shared-objects-unchanged-across-calls',
                   lambda: _case_wit(fn, dict(cc, up_red=keep, down_red=keep), up_red_after=red.copy()),
-                  'after %s(nodal=%s) the shared reduction array changed from %s to %s' % (fn, nodal, keep.tolist(), red.tolist()))
-        if got is None or not _same_bits(red, keep):
-            red[...] = keep      # restore so that the following calls are judged on the intended input
+                  'after %s(nodal=%s) a shared argument object (reductions %s -> %s, travel times, record) differs from its '
+                  'state before the first call' % (fn, nodal, keep.tolist(), red.tolist()))
+        if not pure:
+            return      # later calls would be driven with corrupted input; the corruption itself is the verdict
+        if got is None:
             continue
-        fresh = _call(eqsig, ctx, fn, dict(cc, up_red=keep.copy(), down_red=keep.copy(), same_red_object=False))
+        fresh = _call(eqsig, ctx, fn, dict(cc, up_red=keep.copy(), down_red=keep.copy(), same_red_object=False, tt_obj=None))
         if fresh is not None:
             ctx.check(np.shape(got) == np.shape(fresh) and bool(np.array_equal(got, fresh)), 'shared-reduction==fresh-copies',
                       lambda: _case_wit('rel.shared', cc, base_fn=fn),
-                      '%s with one shared reduction array differs from the call with separate copies' % fn)
+                      '%s with shared argument objects differs from the call with separate fresh copies' % fn)
+
+
+# -- same-object histories ---------------------------------------------------------------------------------------------
+def run_history(eqsig, ctx, rng, h):
+    """Several monitored calls on ONE AccSignal in random order with repeats, interleaved with reads of cached quantities and
+    public mutators; twins built from the same caller array / from the object's values. Every call is judged by the
+    post-conditions against the record as it is at call entry."""
+    c, cls, rcls = gen_surface_case(rng)
+    c['rec_readonly'] = False
+    c['forms_cls'] = 'history'
+    n = len(c['values'])
+    try:
+        a = eqsig.AccSignal(c['values'], c['dt'])
+        twin = eqsig.AccSignal(c['values'], c['dt'])          # same caller array
+        twin2 = eqsig.AccSignal(a.values, c['dt'])            # built from the other object's values
+    except Exception as e:
+        ctx.exception('energy==oracle', _case_wit('calc_surface_energy', c), e)
+        return
+    fns = ['calc_surface_energy', 'calc_cum_abs_surface_energy', 'get_time_shift_motions']
+    steps = []
+    for step in range(10):
+        op = str(rng.choice(['call', 'call', 'call', 'read', 'mutate', 'twin', 'regen']))
+        steps.append(op)
+        try:
+            if op == 'call' or op == 'twin':
+                fn = fns[int(rng.integers(3))]
+                cc = dict(c, nodal=bool(rng.random() < 0.5), trim=bool(rng.random() < 0.5), start=bool(rng.random() < 0.5),
+                          values=np.array(a.values))
+                if op == 'call':
+                    r1 = _call(eqsig, ctx, fn, cc, asig=a)
+                    if r1 is not None and step % 3 == 0:      # immediate repeat on the same object: identical result
+                        r2 = _call(eqsig, ctx, fn, cc, asig=a)
+                        if r2 is not None:
+                            ctx.check(np.shape(r1) == np.shape(r2) and bool(np.array_equal(r1, r2)), 'history.repeat==first',
+                                      lambda: _case_wit(fn, cc, history=list(steps)),
+                                      '%s repeated on the same object gives another result' % fn)
+                else:
+                    ra = _call(eqsig, ctx, fn, cc, asig=a)
+                    tw = twin2 if step % 2 else twin
+                    if not np.array_equal(np.asarray(tw.values), np.asarray(a.values)):
+                        tw.reset_values(a.values)
+                    rb = _call(eqsig, ctx, fn, cc, asig=tw)
+                    if ra is not None and rb is not None:
+                        ctx.check(np.shape(ra) == np.shape(rb) and bool(np.array_equal(ra, rb)), 'history.twin==object',
+                                  lambda: _case_wit(fn, cc, history=list(steps)),
+                                  '%s on a twin object holding the same values gives another result' % fn)
+            elif op == 'read':
+                which = int(rng.integers(4))
+                if which == 0:
+                    a.velocity
+                elif which == 1:
+                    a.displacement
+                elif which == 2:
+                    a.fa_spectrum
+                else:
+                    a.pga
+            elif op == 'regen':
+                a.generate_displacement_and_velocity_series(trap=bool(rng.random() < 0.5))
+            else:
+                which = int(rng.integers(6))
+                if which == 0:
+                    a.reset_values(draw_record(rng, n)[0])                       # same length
+                elif which == 1 and n > 2:
+                    a.reset_values(np.array(a.values[: max(1, n - int(rng.integers(1, n)))]))     # shorter
+                elif which == 2:
+                    a.reset_values(np.concatenate([a.values, draw_record(rng, int(rng.integers(1, 9)))[0]]))   # longer
+                elif which == 3:
+                    a.add_constant(float(rng.normal()))
+                elif which == 4:
+                    a.remove_average()
+                else:
+                    a.add_series(np.asarray(draw_record(rng, a.npts)[0]))
+                if not np.all(np.isfinite(a.values)):      # e.g. the average of an empty section: outside every statement
+                    ctx.observe('history: a mutator produced a non-finite record; record replaced')
+                    a.reset_values(draw_record(rng, max(a.npts, 2))[0])
+                n = a.npts
+        except Exception as e:
+            ctx.observe('history: %s step raised %s (not a C19 function; not judged)' % (op, type(e).__name__))
+    ctx.ok('history.sequence-completed')
+
+
+# -- process-wide state: first result re-checked after a second call on another input of the same shape ----------------
+def run_back_to_back(eqsig, ctx, rng, j):
+    c, cls, rcls = gen_surface_case(rng)
+    n = len(c['values'])
+    fn = ['calc_surface_energy', 'calc_cum_abs_surface_energy', 'get_time_shift_motions'][j % 3]
+    r1 = _call(eqsig, ctx, fn, c)
+    if r1 is None:
+        return
+    keep = np.array(r1)
+    other = draw_record(rng, n)[0]
+    c2 = dict(c, values=other, nodal=not c['nodal'])
+    r2 = _call(eqsig, ctx, fn, c2)
+    same_in = np.array_equal(_x64(c), other)
+    ctx.check(np.shape(r1) == keep.shape and bool(np.array_equal(r1, keep)) and (r2 is None or same_in or r2 is not r1),
+              'first-result-unchanged-after-second-call', lambda: _case_wit('rel.b2b', c, base_fn=fn, other_values=other),
+              '%s: the result of the first call changed (or is the same object) after a second call on another record of the '
+              'same shape' % fn)
+    # array shifting
+    vals, sh, kind = gen_shift_case(rng)
+    vals2 = draw_values(rng, len(vals), 'float64')[0]
+    for which in ('put', 'join'):
+        if which == 'join' and sh.min() < 0:
+            continue
+        try:
+            f = (lambda v: eqsig.put_array_in_2d_array(v, sh, 'both' if j % 2 else 'none')) if which == 'put' else \
+                (lambda v: eqsig.join_values_w_shifts(v, sh, 'sub' if j % 2 else 'add'))
+            q1 = f(vals)
+            k1 = np.array(q1)
+            q2 = f(vals2)
+            ctx.check(bool(np.array_equal(q1, k1)) and q2 is not q1, 'first-result-unchanged-after-second-call',
+                      lambda: {'fn': 'rel.b2b-shift', 'which': which, 'values': np.asarray(vals), 'other_values': vals2,
+                               'shifts': sh, 'odd': bool(j % 2)},
+                      '%s: the first result changed after a second call on other values of the same shape' % which)
+        except Exception as e:
+            ctx.exception('put2d==offsets' if which == 'put' else 'join==padded+-shifted',
+                          {'fn': 'rel.b2b-shift', 'which': which, 'values': np.asarray(vals), 'other_values': vals2,
+                           'shifts': sh, 'odd': bool(j % 2)}, e)
+
+
+def run_long_case(eqsig, ctx, rng, j):
+    """A few long inputs past 2**16 samples."""
+    n = 2 ** 16 + int(rng.integers(1, 40))
+    x, rcls = gen.record(rng, n, cls=['noise', 'quake', 'sine', 'walk'][j % 4])
+    dt = [0.01, 0.005, 1.0 / 128, 0.02][j % 4]
+    taus = np.array([0.07 if dt == 0.01 else 7 * dt, float(rng.uniform(0, 40 * dt))][: 1 + j % 2])
+    c = {'values': x, 'dt': dt, 'travel_times': taus, 'tt_obj': np.array(taus), 'tt_container': 'ndarray', 'nodal': bool(j % 2),
+         'up_red': None, 'down_red': None, 'stt': float(rng.uniform(0, 20 * dt)) if j % 3 else 0.0,
+         'trim': bool(j % 3 == 1), 'start': bool(j % 2 == 0)}
+    ctx.case(core.digest(x[:64], n, dt, taus), nontrivial=True, cls='surface:long>2**16',
+             sample={'fn': 'calc_cum_abs_surface_energy', 'n': n, 'dt': dt, 'travel_times': taus})
+    _call(eqsig, ctx, 'calc_cum_abs_surface_energy' if j % 2 else 'calc_surface_energy', c)
+    sh = np.array([0, int(rng.integers(1, 50)), -int(rng.integers(1, 50))])
+    _put(eqsig, ctx, x, sh, ['none', 'start', 'end', 'both'][j % 4])
+    _join(eqsig, ctx, x.astype(np.float32) if j % 2 else x, np.abs(sh), 'add' if j % 2 else 'sub')
 
 
 # -- shift workload ---------------------------------------------------------------------------------------------------
-def _put(eqsig, ctx, values, shifts, clip):
+def _shift_wit(fn, values, shifts, **kw):
+    d = {'fn': fn, 'values': np.asarray(values), 'shifts': np.asarray(shifts), 'values_container': _container_name(values),
+         'shifts_container': _container_name(shifts)}
+    d.update(kw)
+    return d
+
+
+def _put(eqsig, ctx, values, shifts, clip, style='kw'):
     try:
-        if clip is None:
+        if clip == 'omit':
             eqsig.put_array_in_2d_array(values, shifts)
+        elif style == 'pos':
+            eqsig.put_array_in_2d_array(values, shifts, clip)
+        elif style == 'kw-all':
+            eqsig.put_array_in_2d_array(values=values, shifts=shifts, clip=clip)
         else:
             eqsig.put_array_in_2d_array(values, shifts, clip=clip)
     except Exception as e:
-        ctx.exception('put2d==offsets', {'fn': 'put_array_in_2d_array', 'values': np.asarray(values), 'shifts': np.asarray(shifts),
-                                         'clip': 'none' if clip is None else clip,
-                                         'values_container': type(values).__name__,
-                                         'shifts_container': type(shifts).__name__}, e)
+        ctx.exception('put2d==offsets', _shift_wit('put_array_in_2d_array', values, shifts,
+                                                   clip='none' if clip == 'omit' else clip, style=style), e)
 
 
-def _join(eqsig, ctx, values, shifts, jtype):
+def _join(eqsig, ctx, values, shifts, jtype, style='kw'):
     neg = min(int(s) for s in np.asarray(shifts).tolist()) < 0
     try:
-        eqsig.join_values_w_shifts(values, shifts, jtype=jtype)
+        if style == 'pos':
+            eqsig.join_values_w_shifts(values, shifts, jtype)
+        elif jtype == 'omit':
+            eqsig.join_values_w_shifts(values, shifts)
+        else:
+            eqsig.join_values_w_shifts(values, shifts, jtype=jtype)
     except Exception as e:
         if neg:
             ctx.observe('join_values_w_shifts: negative shift raised %s (not judged)' % type(e).__name__)
         else:
-            ctx.exception('join==padded+-shifted', {'fn': 'join_values_w_shifts', 'values': np.asarray(values),
-                                                    'shifts': np.asarray(shifts), 'jtype': jtype,
-                                                    'values_container': type(values).__name__,
-                                                    'shifts_container': type(shifts).__name__}, e)
+            ctx.exception('join==padded+-shifted', _shift_wit('join_values_w_shifts', values, shifts,
+                                                              jtype='add' if jtype == 'omit' else jtype, style=style), e)
+
+
+SHIFT_DTYPES = ['int64', 'int64', 'int32', 'int16', 'int8', 'uint8', 'uint16']
 
 
 def gen_shift_case(rng):
@@ -779,7 +1340,7 @@ def gen_shift_case(rng):
     k = int(rng.integers(1, 7))
     kind = str(rng.choice(['all-zero', 'all-negative', 'all-positive', 'mixed', 'non-negative', 'non-positive'],
                           p=[.1, .15, .15, .35, .15, .1]))
-    m = int(rng.choice([3, n, 2 * n + 1]))
+    m = int(rng.choice([3, n, 2 * n + 1, 120, 250]))       # 120 / 250: most of the int8 / uint8 range
     if kind == 'all-zero':
         sh = np.zeros(k, dtype=int)
     elif kind == 'all-negative':
@@ -797,7 +1358,36 @@ def gen_shift_case(rng):
     return vals, sh, kind + '/' + vk
 
 
-VALUE_KINDS = ['float64', 'float64-int', 'int64', 'uint8', 'uint16', 'int8', 'int16', 'int32', 'float32', 'float32-huge']
+def shift_container(rng, sh):
+    """The shift vector in another integer dtype / container that can hold it."""
+    fits = [d for d in SHIFT_DTYPES if np.iinfo(d).min <= sh.min() and sh.max() <= np.iinfo(d).max]
+    r = rng.random()
+    if r < 0.12:
+        return sh.tolist(), 'list'
+    if r < 0.18:
+        return tuple(sh.tolist()), 'tuple'
+    arr = sh.astype(fits[int(rng.integers(len(fits)))])
+    form = str(rng.choice(['ndarray', 'view', 'rview', 'readonly'], p=[.6, .15, .1, .15]))
+    arr = _as_form(arr, form)
+    return arr, '%s:%s' % (form, arr.dtype.name)
+
+
+def values_container(rng, vals):
+    r = rng.random()
+    if r < 0.55:
+        return vals, 'ndarray'
+    if r < 0.65:
+        return vals.tolist(), 'list'
+    if r < 0.7:
+        return tuple(vals.tolist()), 'tuple'
+    if r < 0.75 and vals.dtype.kind == 'f':
+        return [int(v) if (i % 2 == 0 and abs(v) < 2.0 ** 53 and float(v) == int(v)) else float(v) for i, v in enumerate(vals.tolist())], 'list-mixed'
+    form = str(rng.choice(['view', 'rview', 'readonly']))
+    return _as_form(vals, form), form
+
+
+VALUE_KINDS = ['float64', 'float64-int', 'int64', 'uint8', 'uint16', 'int8', 'int16', 'int32', 'float32', 'float32-huge',
+               'float64-tiny', 'float64-huge']
 
 
 def draw_values(rng, n, vk=None):
@@ -807,6 +1397,10 @@ def draw_values(rng, n, vk=None):
         vk = VALUE_KINDS[int(rng.integers(len(VALUE_KINDS)))]
     if vk == 'float64':
         return rng.normal(size=n), vk
+    if vk == 'float64-tiny':
+        return rng.normal(size=n) * 1e-12, vk
+    if vk == 'float64-huge':
+        return rng.normal(size=n) * 1e12 + 1e12, vk
     if vk == 'float64-int':
         v = rng.integers(-9, 10, size=n).astype(float)
         v[v == 0] = 1.0
@@ -835,22 +1429,31 @@ def run_shard(ctx):
     quick = ctx.tier == 'quick'
     rng = ctx.rng
     # -- surface cases ----------------------------------------------------------------------------------------------
-    n_cases = (1400 if quick else 26000) // ctx.nshards + 1
+    n_cases = (3200 if quick else 60000) // ctx.nshards + 1
     for i in range(n_cases):
         c, cls, rcls = gen_surface_case(rng)
         alpha = draw_alpha(rng, i)
-        x = np.asarray(c['values'])
+        x = _x64(c)
         ctx.case(core.digest(x, c['dt'], c['travel_times'], c['tt_container'], c['nodal'], c['up_red'], c['down_red'],
-                             c['stt'], c['trim'], c['start'], alpha),
+                             c['stt'], c['trim'], c['start'], alpha, c['forms_cls']),
                  nontrivial=bool(len(x) > 1 and np.any(x != 0)), cls=cls,
                  sample={'fn': 'calc_cum_abs_surface_energy+relations', 'n': len(x), 'record_class': rcls, 'dt': c['dt'],
                          'travel_times': c['travel_times'], 'nodal': c['nodal'], 'up_red': c['up_red'],
                          'down_red': c['down_red'], 'stt': c['stt'], 'trim': c['trim'], 'start': c['start'],
-                         'alpha': alpha})
+                         'alpha': alpha, 'forms': c['forms_cls']})
+        for part in c['forms_cls'].split('|'):
+            ctx.observe('form ' + part)
         run_surface_case(eqsig, ctx, c, i, alpha)
         if ctx.out_of_time():
             ctx.observe('surface workload cut by the safety-net budget')
             break
+    # -- same-object histories, back-to-back pairs, long inputs ------------------------------------------------------
+    for h in range((320 if quick else 6000) // ctx.nshards + 1):
+        run_history(eqsig, ctx, rng, h)
+    for j in range((480 if quick else 9000) // ctx.nshards + 1):
+        run_back_to_back(eqsig, ctx, rng, j + ctx.shard)
+    for j in range(1 if quick else 4):
+        run_long_case(eqsig, ctx, rng, j + ctx.shard)
     # -- shifts: exhaustive small vectors -----------------------------------------------------------------------------
     maxlen = 3 if quick else 4
     idx = 0
@@ -860,7 +1463,9 @@ def run_shard(ctx):
             idx += 1
             if idx % ctx.nshards != ctx.shard:
                 continue
-            sh = np.array(vec, dtype=np.int64)
+            sh = np.array(vec, dtype=[np.int64, np.int8, np.int16, np.int32][idx % 4])
+            if min(vec) >= 0 and idx % 3 == 0:
+                sh = sh.astype(np.uint8)
             for n in (1, 2, 4):
                 vsel = idx % 6
                 if vsel < 2:
@@ -873,27 +1478,33 @@ def run_shard(ctx):
                     vals = np.array([1.0000001, 3.0e38, -2.9e38, 16777217.0][:n], dtype=np.float32)
                 else:
                     vals = np.array([40000, 65535, 32768, 50001][:n], dtype=np.uint16)
-                for clip in ('none', 'start', 'end', 'both'):
-                    _put(eqsig, ctx, vals, sh if idx % 5 else list(vec), None if (clip == 'none' and idx % 2) else clip)
+                for ci, clip in enumerate(('none', 'start', 'end', 'both')):
+                    cl = clip
+                    if clip == 'none':
+                        cl = ['none', 'omit', None][idx % 3]
+                    _put(eqsig, ctx, vals, sh if idx % 5 else list(vec), cl, style=['kw', 'pos', 'kw-all'][(idx + ci) % 3])
                     n_enum += 1
                 if min(vec) >= 0:
                     for jt in ('add', 'sub'):
-                        _join(eqsig, ctx, vals, sh, jt)
+                        _join(eqsig, ctx, vals, sh, 'omit' if (jt == 'add' and idx % 2) else jt, style='pos' if idx % 3 == 1 and jt == 'sub' else 'kw')
                         n_enum += 1
     ctx.cases_enumerated(n_enum, n_enum, cls='shift:exhaustive{-3..3}')
     ctx.exhaustive['shift_vectors_x_n_x_clip'] = n_enum
     # -- shifts: random -----------------------------------------------------------------------------------------------
-    n_rand = (2400 if quick else 45000) // ctx.nshards + 1
+    n_rand = (4800 if quick else 90000) // ctx.nshards + 1
     for i in range(n_rand):
         vals, sh, kind = gen_shift_case(rng)
-        ctx.case(core.digest(vals, sh), nontrivial=bool(np.any(vals != 0)), cls='shift:' + kind,
-                 sample={'fn': 'put_array_in_2d_array x4 clip + join', 'values': vals, 'shifts': sh})
-        v_arg = vals.tolist() if i % 7 == 3 else vals
-        s_arg = sh.tolist() if i % 5 == 2 else (sh.astype(np.int32) if i % 5 == 4 else sh)
-        for clip in ('none', 'start', 'end', 'both'):
-            _put(eqsig, ctx, v_arg, s_arg, clip)
+        v_arg, vform = values_container(rng, vals)
+        s_arg, sform = shift_container(rng, sh)
+        ctx.case(core.digest(vals, sh, vform, sform), nontrivial=bool(np.any(vals != 0)), cls='shift:' + kind,
+                 sample={'fn': 'put_array_in_2d_array x4 clip + join', 'values': vals, 'shifts': sh,
+                         'values_form': vform, 'shifts_form': sform})
+        ctx.observe('form values-' + vform)
+        ctx.observe('form shifts-' + sform)
+        for ci, clip in enumerate(('none', 'start', 'end', 'both')):       # the SAME argument objects for all calls
+            _put(eqsig, ctx, v_arg, s_arg, clip, style=['kw', 'pos', 'kw-all'][(i + ci) % 3])
         if sh.min() >= 0:
-            _join(eqsig, ctx, v_arg, s_arg, 'add')
+            _join(eqsig, ctx, v_arg, s_arg, 'add', style='pos' if i % 3 == 0 else 'kw')
             _join(eqsig, ctx, v_arg, s_arg, 'sub')
         elif i % 4 == 0:
             _join(eqsig, ctx, vals, sh, 'add' if i % 2 else 'sub')
@@ -908,39 +1519,94 @@ def run_shard(ctx):
 
 
 # ---------------------------------------------------------------------------------------------------------- replay
+def _reform(w):
+    """Rebuild the container forms recorded in a witness (JSON keeps values and dtypes, not views / flags / scalar types)."""
+    w = dict(w)
+    u, d = w.get('up_red'), w.get('down_red')
+    rf = w.get('red_form')
+    if isinstance(u, np.ndarray):
+        w['up_red'] = _as_form(u, rf)
+        w['down_red'] = _as_form(d, rf) if isinstance(d, np.ndarray) else d
+    elif u is not None and rf in ('np.float32', 'np.float64'):
+        w['up_red'], w['down_red'] = getattr(np, rf[3:])(u), getattr(np, rf[3:])(d)
+    vc = w.get('values_container')
+    if vc == 'list':
+        w['values'] = np.asarray(w['values']).tolist()
+    elif vc == 'tuple':
+        w['values'] = tuple(np.asarray(w['values']).tolist())
+    w['tt_obj'] = None
+    return w
+
+
+def _shift_args(w):
+    vals, sh = np.asarray(w['values']), np.asarray(w['shifts'])
+    vc, sc = w.get('values_container', 'ndarray'), w.get('shifts_container', 'ndarray')
+    vals = vals.tolist() if vc == 'list' else (tuple(vals.tolist()) if vc == 'tuple' else _as_form(vals, vc))
+    sh = sh.tolist() if sc == 'list' else (tuple(sh.tolist()) if sc == 'tuple' else _as_form(sh, sc))
+    return vals, sh
+
+
 def replay(w):
     eqsig = core.import_eqsig()
     ctx = core.Ctx(PROP_ID, 'quick', 0, 0, 1)
     install(ctx)
     fn = w.get('fn')
     if fn in _FN_CLAUSE:
-        _call(eqsig, ctx, fn, w)
+        _call(eqsig, ctx, fn, _reform(w))
     elif fn == 'rel.batch':
-        _rel_batch(eqsig, ctx, w['base_fn'], w)
+        _rel_batch(eqsig, ctx, w['base_fn'], _reform(w))
     elif fn == 'rel.alpha':
-        _rel_alpha(eqsig, ctx, w, w['alpha'])
+        _rel_alpha(eqsig, ctx, _reform(w), w['alpha'])
     elif fn == 'rel.shared':
+        w = _reform(w)
         red = np.array(w['up_red'], dtype=float)
         got = _call(eqsig, ctx, w['base_fn'], dict(w, up_red=red, down_red=red, same_red_object=True))
         fresh = _call(eqsig, ctx, w['base_fn'], dict(w, up_red=red.copy(), down_red=red.copy(), same_red_object=False))
         if got is not None and fresh is not None:
             ctx.check(np.shape(got) == np.shape(fresh) and bool(np.array_equal(got, fresh)), 'shared-reduction==fresh-copies',
                       w, 'shared reduction array vs separate copies differ')
-    elif fn == 'trim_to_length':
+    elif fn == 'rel.b2b':
+        w = _reform(w)
+        r1 = _call(eqsig, ctx, w['base_fn'], w)
+        if r1 is not None:
+            keep = np.array(r1)
+            _call(eqsig, ctx, w['base_fn'], dict(w, values=w['other_values'], nodal=not w['nodal']))
+            ctx.check(bool(np.array_equal(r1, keep)), 'first-result-unchanged-after-second-call', w,
+                      'first result changed after the second call')
+    elif fn == 'rel.b2b-shift':
+        sh = np.asarray(w['shifts'])
+        f = (lambda v: eqsig.put_array_in_2d_array(v, sh, 'both' if w['odd'] else 'none')) if w['which'] == 'put' else \
+            (lambda v: eqsig.join_values_w_shifts(v, sh, 'sub' if w['odd'] else 'add'))
         try:
-            eqsig.surface.trim_to_length(np.asarray(w['values2d'], dtype=float), int(w['npts']),
-                                         np.asarray(w['travel_times'], dtype=float), w['dt'], trim=w['trim'],
+            q1 = f(w['values'])
+            k1 = np.array(q1)
+            f(w['other_values'])
+            ctx.check(bool(np.array_equal(q1, k1)), 'first-result-unchanged-after-second-call', w, 'first result changed')
+        except Exception as e:
+            ctx.exception('put2d==offsets', w, e)
+    elif fn == 'trim_to_length':
+        vals = np.asarray(w['values2d'])
+        form = w.get('values2d_form', 'ndarray')
+        if form == 'fortran':
+            vals = np.asfortranarray(vals)
+        elif form == 'readonly':
+            vals = vals.copy()
+            vals.flags.writeable = False
+        elif form in ('colview', 'view'):
+            big = np.zeros((vals.shape[0], 2 * vals.shape[1]), dtype=vals.dtype)
+            big[:, ::2] = vals
+            vals = big[:, ::2]
+        try:
+            eqsig.surface.trim_to_length(vals, int(w['npts']), np.asarray(w['travel_times']), w['dt'], trim=w['trim'],
                                          start=w['start'], s2s_travel_time=w['stt'])
         except Exception as e:
             ctx.exception('trim.placement', w, e)
     elif fn == 'put_array_in_2d_array':
-        vals = w['values'].tolist() if w.get('values_container') == 'list' else w['values']
-        sh = w['shifts'].tolist() if w.get('shifts_container') == 'list' else w['shifts']
-        _put(eqsig, ctx, vals, sh, w.get('clip', 'none'))
+        vals, sh = _shift_args(w)
+        _put(eqsig, ctx, vals, sh, w.get('clip', 'none'), style=w.get('style', 'kw'))
     elif fn == 'join_values_w_shifts':
-        vals = w['values'].tolist() if w.get('values_container') == 'list' else w['values']
-        sh = w['shifts'].tolist() if w.get('shifts_container') == 'list' else w['shifts']
-        _join(eqsig, ctx, vals, sh, w.get('jtype', 'add'))
+        vals, sh = _shift_args(w)
+        _join(eqsig, ctx, vals, sh, w.get('jtype', 'add'), style=w.get('style', 'kw'))
     else:
         return ['unknown witness kind %r' % fn]
     return ['%s: %s' % (v['clause'], v['msg']) for v in ctx.violations]
